@@ -14,13 +14,13 @@ import (
 )
 
 type FuncResult struct {
-	Key     string
-	VC      *VC
-	Err     error // outside subset / specification error
-	Obls    []*Obligation
-	Sweep   bool
-	Lemma   bool
-	Notes   []string
+	Key   string
+	VC    *VC
+	Err   error // outside subset / specification error
+	Obls  []*Obligation
+	Sweep bool
+	Lemma bool
+	Notes []string
 }
 
 func (p *Program) newTopFrame(ex *Exec, fn *ssa.Function, ct *Contract) (*Frame, *State) {
@@ -363,8 +363,8 @@ func (ex *Exec) checkFrame(fr *Frame, st *State, ct *Contract, ord int, pos toke
 		return
 	}
 	allowedWhole := map[string]bool{}
-	allowedAt := map[string][]string{}  // comp -> refs
-	allowedIn := map[string][]string{}  // comp -> sets
+	allowedAt := map[string][]string{} // comp -> refs
+	allowedIn := map[string][]string{} // comp -> sets
 	pre := ex.envFor(fr, fr.entry)
 	pre.old = nil
 	for _, m := range ct.Modifies {
